@@ -6,7 +6,7 @@
 
    What a Gallina model can say about this, and what it cannot.
    The model represents every Python exception site of the GLUE code as `Err` (Core.v: startPosition/endPosition of a non-empty
-   segment without aligned pair, the trimming loop of AlignmentSegment.slice popping its list to empty, list indexing; Multi.v:
+   segment without aligned pair, list indexing — the trimming loop of AlignmentSegment.slice no longer raises, repair F8 —; Multi.v:
    list.index, alignedPairs[0], segments[0]; Cigar.v: hits[0], next() on an exhausted iterator; Xmap.v: the reader's exceptions by type).
    The theorems below are statements "the model returns Ok".  OUTSIDE any such model, and therefore not covered by a theorem:
    exceptions raised inside numpy / scipy / pandas (cross-correlation, find_peaks — e.g. minPeakDistance below primaryResolution is
@@ -25,17 +25,24 @@
    The only parameter hypotheses are SU P <= 0 (the code raises ValueError("penalty should be negative") for a positive
    unmatchedPenalty, on purpose) and 0 < MS P.
 
-   Findings recorded with this property (both exhibited on the unchanged code, in process):
-   F8  AlignmentResultRow.resolve -> AlignmentSegment.slice -> __trimNotAlignedPositionsFromEnd raises IndexError  (C07_join_refuted);
-   F9  AlignmentResultRow.resolve returns a row without any aligned pair, which is written as a record the reader cannot read
-       (C07_pairless_join_refuted, C07_pairless_record_unreadable).
-   F11 a reference whose labels end before the query's extent (e.g. one label) aborts the run inside InitialAlignment.refine
-       (scipy.signal.correlate on an empty reference slice) — in numpy/scipy territory, outside this model; real-file witness with default
-       parameters in harness/props/C07.py (data set f11_short_labelled_reference).
+   Findings recorded with this property — all three are REPAIRED in the code this model transliterates; their witnesses are kept below
+   as regressions over explicit variants of the old code (TotalProofs1.slice_gen false = slice before repair F8,
+   TotalProofs3.results_resolve_gen f8 f9 = AlignmentResults.resolve with / without the repairs; (true, true) is the model), next to
+   theorems saying that the current model does not have the defect on the same inputs:
+   F8  (repaired: `while positions and not isinstance(positions[-1], AlignedPair) and ...`; Core.trim_rev [] = Ok [])
+       AlignmentResultRow.resolve -> AlignmentSegment.slice -> __trimNotAlignedPositionsFromEnd raised IndexError on the emptied list
+       (C07_slice_raises_iff_before_F8, C07_join_refuted_before_F8; now: C07_slice_total, C07_aligner_total, C07_join_ok_on_F8_witness);
+   F9  (repaired: `if resolved and resolved.alignedPairs` in AlignmentResults.resolve; Multi.resolve_groups tests joined_ok)
+       AlignmentResultRow.resolve can return a row without any aligned pair; it used to replace its two parts and was written as a
+       record the reader cannot read (C07_pairless_join_before_F9, C07_pairless_record_unreadable; now the two parts stay un-joined:
+       C07_pairless_join_not_reported_on_F9_witness);
+   F11 (repaired) a reference whose labels end before the query's extent (e.g. one label) aborted the run inside
+       InitialAlignment.refine (IndexError around scipy.signal.correlate on an empty reference window) — in the seeding stage, in
+       numpy/scipy territory, outside this model; real-file data set f11_short_labelled_reference in harness/props/C07.py.
    This file contains only statements; every proof is `exact <lemma>`. *)
 From Coq Require Import ZArith QArith List Bool String Sorting.Sorted.
 Import ListNotations.
-Require Import Py Pairing Core Multi Cigar CigarProofs Xmap XmapProofs2 ChainCore ConflictProofs TotalProofs1 TotalProofs2 TotalProofs3.
+Require Import Py Pairing Core Multi Cigar CigarProofs Xmap XmapProofs2 ChainCore Checkers ConflictProofs TotalProofs1 TotalProofs2 TotalProofs3.
 Open Scope Z_scope.
 
 (* ================================================================== 1. segment factory, ordering key, chain: never raise ========== *)
@@ -57,27 +64,43 @@ Theorem C07_chain_total P it reference query peaks rev_ : SU P <= 0 -> 0 < MS P 
   exists c, chain P (segs_for_peaks P it reference query peaks rev_) = Ok c.
 Proof. exact (aligner_chain_total P it reference query peaks rev_). Qed.
 
-(* ================================================================== 2. conflict resolution: where it can raise ====================== *)
+(* ================================================================== 2. conflict resolution: never raises (where it did) ========== *)
 (* window s st en = the positions slice keeps before trimming (dropwhile lessOnBoth(start), takewhile not-a-pair-or-lessOrEqualOnAny(end));
    loose en p = p is not a pair and not lessOrEqualOnAnySequence(en), i.e. the trimming loop pops it.
-   AlignmentSegment.slice raises (IndexError, positions[-1] of the emptied list) EXACTLY when the window is non-empty and all loose. *)
-Theorem C07_slice_raises_iff s st en : slice s st en = Err <-> window s st en <> [] /\ forallb (loose en) (window s st en) = true.
-Proof. exact (slice_err_iff s st en). Qed.
+   AlignmentSegment.slice never raises: the trimming loop stops on the emptied list (repair F8). *)
+Theorem C07_slice_total s st en : exists r, slice s st en = Ok r.
+Proof. exact (slice_total s st en). Qed.
+(* REGRESSION (F8).  slice_gen fixed = slice over Core.trim_rev_gen fixed; slice_gen true is the model's slice, slice_gen false the code
+   before the repair, which raised (IndexError, positions[-1] of the emptied list) EXACTLY when the window is non-empty and all loose;
+   there the code now returns the empty segment, everywhere else it returns what it returned before. *)
+Theorem C07_slice_gen_is_model s st en : slice_gen true s st en = slice s st en.
+Proof. exact (slice_gen_true s st en). Qed.
+Theorem C07_slice_raises_iff_before_F8 s st en :
+  slice_gen false s st en = Err <-> window s st en <> [] /\ forallb (loose en) (window s st en) = true.
+Proof. exact (slice_old_err_iff s st en). Qed.
+Theorem C07_slice_repaired s st en :
+  (exists r, slice s st en = Ok r) /\ (forall r, slice_gen false s st en = Ok r -> slice s st en = Ok r) /\
+  (slice_gen false s st en = Err -> slice s st en = Ok (seg_create [] (speak s))).
+Proof. exact (conj (slice_total s st en) (conj (slice_old_agree s st en) (slice_old_err_now s st en))). Qed.
 
-(* one resolution step on two segments with defined ends raises only there *)
-Theorem C07_resolve_pair_raises_only_in_slice a b : seg_defined a -> seg_defined b -> resolve_pair a b = Err ->
+(* one resolution step on two segments with defined ends (empty, or with an aligned pair) never raises ... *)
+Theorem C07_resolve_pair_total_defined a b : seg_defined a -> seg_defined b -> exists r, resolve_pair a b = Ok r.
+Proof. exact (resolve_pair_total a b). Qed.
+(* ... REGRESSION (F8): before the repair it raised only inside slice (resolve_pair_g sl = resolve_pair with sl in place of slice) *)
+Theorem C07_resolve_pair_raises_only_in_slice_before_F8 a b : seg_defined a -> seg_defined b -> resolve_pair_g (slice_gen false) a b = Err ->
   seg_empty a = false /\ end_overlaps a b = Ok true /\
-  exists cs ce, start_position b = Ok cs /\ end_position a = Ok ce /\ (slice a cs ce = Err \/ slice b cs ce = Err).
-Proof. exact (resolve_pair_g_err slice a b). Qed.
+  exists cs ce, start_position b = Ok cs /\ end_position a = Ok ce /\ (slice_gen false a cs ce = Err \/ slice_gen false b cs ce = Err).
+Proof. exact (resolve_pair_g_err (slice_gen false) a b). Qed.
 
-(* C07_resolve_pair_total, as far as it is true: a left member that ends with a pair and whose pairs are all
-   lessOrEqualOnAnySequence(its last pair), and a right member that begins with a pair, resolve without raising ... *)
+(* (statements from before the repair, still true, now instances of C07_resolve_pair_total_defined)
+   a left member that ends with a pair and whose pairs are all lessOrEqualOnAnySequence(its last pair), and a right member that begins
+   with a pair, resolve without raising ... *)
 Theorem C07_resolve_pair_total a b :
   first_is_pair (positions a) -> last_is_pair (positions a) -> pairs_le_end a -> first_is_pair (positions b) ->
   exists r, resolve_pair a b = Ok r.
 Proof. exact (resolve_pair_fresh_total a b). Qed.
 (* ... which holds for ANY two segments Aligner.align builds from maps with ascending positions (ties allowed): the first resolution
-   step of every pair never raises.  (It is false for segments already trimmed by an earlier step: C07_join_refuted.) *)
+   step of every pair never raises. *)
 Theorem C07_first_resolution_total P it reference query peaks rev_ a b :
   StronglySorted Z.le (mpositions reference) -> StronglySorted Z.le (mpositions query) -> SU P <= 0 -> 0 < MS P ->
   In a (segs_for_peaks P it reference query peaks rev_) -> In b (segs_for_peaks P it reference query peaks rev_) ->
@@ -85,39 +108,30 @@ Theorem C07_first_resolution_total P it reference query peaks rev_ a b :
 Proof. exact (first_resolution_total P it reference query peaks rev_ a b). Qed.
 
 (* ================================================================== 3. Aligner.align ============================================== *)
-(* FULL STATEMENT (not proved, not refuted for the code as it is):
-     forall P it reference query peaks rev_, sorted reference -> sorted query -> SU P <= 0 -> 0 < MS P ->
-       exists segs, aligner_align P it reference query peaks rev_ = Ok segs.
-   What is missing: an invariant of the resolution loop for members that were already trimmed by an earlier step (a left member may
-   then end with unpaired labels, C07_slice_raises_iff says such a slice can raise).  No input on which Aligner.align itself raises was
-   found (2.5 million generated cases incl. dense lattices, 3-6 peaks, duplicate positions); the crash is reached through the
-   multi-pass join instead (section 4).
-   Proved instead:
-   (a) PARTIAL, the code as it is: segments, ordering key and chain never raise; if Aligner.align raises, then it is the IndexError of
-       slice inside the resolution loop over a chain built from at least two segments, and the repaired loop does not raise there. *)
-Theorem C07_aligner_total_partial P it reference query peaks rev_ : SU P <= 0 -> 0 < MS P ->
-  aligner_align P it reference query peaks rev_ = Err ->
-  exists ch, chain P (segs_for_peaks P it reference query peaks rev_) = Ok ch /\
-             (2 <= List.length (segs_for_peaks P it reference query peaks rev_))%nat /\
-             resolve_loop (List.length ch) 0 ch [] = Err /\ exists r, resolve_loop_g slice_fix (List.length ch) 0 ch [] = Ok r.
-Proof. exact (aligner_err_only_in_loop P it reference query peaks rev_). Qed.
-(* (b) FULL for the repaired trimming loop (`while positions and not isinstance(positions[-1], AlignedPair) and ...`, modelled by
-       slice_fix = slice with `trim_rev [] = Ok []`; aligner_align_g sl = the model with sl in place of slice):
-       Aligner.align never raises — for all maps (sorted or not), all peak lists, both strands, all parameters with SU <= 0 < MS. *)
-Theorem C07_aligner_total_repaired P it reference query peaks rev_ : SU P <= 0 -> 0 < MS P ->
-  exists segs, aligner_align_g slice_fix P it reference query peaks rev_ = Ok segs.
-Proof. exact (aligner_fix_total P it reference query peaks rev_). Qed.
-(* the generic loop instantiated with the code's slice IS the model, and the repair changes nothing where the code does not raise *)
+(* FULL: Aligner.align never raises — for all maps (sorted or not: the statement asked for sorted maps only), all peak lists, both
+   strands, every iteration counter, all parameters with SU <= 0 < MS.  (Segments, ordering key and chain never raise, section 1; the
+   resolution loop keeps on its stack only members that still have a pair, and one step on such members raises only inside slice,
+   which is total after repair F8.) *)
+Theorem C07_aligner_total P it reference query peaks rev_ : SU P <= 0 -> 0 < MS P ->
+  exists segs, aligner_align P it reference query peaks rev_ = Ok segs.
+Proof. exact (aligner_total P it reference query peaks rev_). Qed.
+(* aligner_align_g sl = the model with sl in place of slice: instantiated with the model's slice it IS the model ... *)
 Theorem C07_generic_is_model P it reference query peaks rev_ :
   aligner_align_g slice P it reference query peaks rev_ = aligner_align P it reference query peaks rev_.
 Proof. exact (aligner_align_g_slice P it reference query peaks rev_). Qed.
+(* ... REGRESSION (F8), the code before the repair = aligner_align_g (slice_gen false): the repair changed nothing where that did not
+   raise; if it raised, it was the IndexError of slice inside the resolution loop over a chain built from at least two segments,
+   and the loop as it is now does not raise there.  (No input on which the old Aligner.align itself raised was ever found; the crash
+   was reached through the multi-pass join, section 4.) *)
 Theorem C07_repair_conservative P it reference query peaks rev_ segs :
-  aligner_align P it reference query peaks rev_ = Ok segs -> aligner_align_g slice_fix P it reference query peaks rev_ = Ok segs.
-Proof. exact (aligner_fix_agree P it reference query peaks rev_ segs). Qed.
-Theorem C07_slice_repaired s st en :
-  (exists r, slice_fix s st en = Ok r) /\ (forall r, slice s st en = Ok r -> slice_fix s st en = Ok r) /\
-  (slice s st en = Err -> slice_fix s st en = Ok (seg_create [] (speak s))).
-Proof. exact (conj (slice_fix_total s st en) (conj (slice_fix_agree s st en) (slice_fix_err s st en))). Qed.
+  aligner_align_g (slice_gen false) P it reference query peaks rev_ = Ok segs -> aligner_align P it reference query peaks rev_ = Ok segs.
+Proof. exact (aligner_old_agree P it reference query peaks rev_ segs). Qed.
+Theorem C07_aligner_raises_only_in_loop_before_F8 P it reference query peaks rev_ : SU P <= 0 -> 0 < MS P ->
+  aligner_align_g (slice_gen false) P it reference query peaks rev_ = Err ->
+  exists ch, chain P (segs_for_peaks P it reference query peaks rev_) = Ok ch /\
+             (2 <= List.length (segs_for_peaks P it reference query peaks rev_))%nat /\
+             resolve_loop_g (slice_gen false) (List.length ch) 0 ch [] = Err /\ exists r, resolve_loop (List.length ch) 0 ch [] = Ok r.
+Proof. exact (aligner_old_err_only_in_loop P it reference query peaks rev_). Qed.
 
 (* ================================================================== 4. multi-pass glue on rows ==================================== *)
 (* getUnalignedFragments: list.index(queryStartPosition / queryEndPosition) is the only raising operation, on the '+' strand only;
@@ -126,40 +140,74 @@ Theorem C07_fragments_total w qpos : (rrev w = false -> In (qs w) qpos /\ In (qe
 Proof. exact (unaligned_fragments_total w qpos). Qed.
 
 (* AlignmentResultRow.resolve.  FULL STATEMENT: for rows a, b built by Aligner.align (with at least one pair each) join_rows a b = Ok _.
-   REFUTED for the code as it is: concrete maps, parameters and seed peaks (units in the comment of proofs/TotalProofs3.v: reference
-   labels at 10, 14, 18 bp, query labels at 0, 5, 6, 10 bp, first pass from peaks 11 and 12, second pass from peak 7) on which both
-   passes succeed, the fragment is recomputed without error, the two rows overlap, and the join raises. *)
-Theorem C07_join_refuted : exists P reference query peaks1 peaks2 segs1 segs2 frag,
+   PARTIAL: the join does not raise when both parts have a pair and the FIRST segment of each part is empty or has an aligned pair
+   (missing: that Aligner.align never returns a row whose first segment is non-empty without pair) *)
+Theorem C07_join_total_partial a b : row_pairs (rsegs a) <> [] -> row_pairs (rsegs b) <> [] ->
+  (forall s, seg0 a = Ok s -> seg_defined s) -> (forall s, seg0 b = Ok s -> seg_defined s) ->
+  exists r, join_rows a b = Ok r.
+Proof. exact (join_rows_total a b). Qed.
+(* join_rows_g sl = join_rows with sl in place of slice; results_resolve_gen f8 f9 = AlignmentResults.resolve with (true) / without
+   (false) the repairs F8 / F9: with both it is the model *)
+Theorem C07_generic_join_is_model a b : join_rows_g slice a b = join_rows a b.
+Proof. exact (join_rows_g_slice a b). Qed.
+Theorem C07_generic_resolve_is_model rows maxdiff : results_resolve_gen true true rows maxdiff = results_resolve rows maxdiff.
+Proof. exact (results_resolve_gen_model rows maxdiff). Qed.
+(* REGRESSION (F8): the full statement was REFUTED for the code before the repair: concrete maps, parameters and seed peaks (units in
+   the comment of proofs/TotalProofs3.v: reference labels at 10, 14, 18 bp, query labels at 0, 5, 6, 10 bp, first pass from peaks 11 and
+   12, second pass from peak 7) on which both passes succeed, the fragment is recomputed without error, the two rows overlap, and the
+   join raised. *)
+Theorem C07_join_refuted_before_F8 : exists P reference query peaks1 peaks2 segs1 segs2 frag,
   StronglySorted Z.le (mpositions reference) /\ StronglySorted Z.le (mpositions query) /\ SU P <= 0 /\ 0 < MS P /\
-  aligner_align P 1 reference query peaks1 false = Ok segs1 /\
+  aligner_align_g (slice_gen false) P 1 reference query peaks1 false = Ok segs1 /\
   (let w1 := row_create segs1 (mid query) (mid reference) (mlen query) (mlen reference) false in
    unaligned_fragments w1 (mpositions query) = Ok [frag] /\
-   aligner_align P 3 reference frag peaks2 false = Ok segs2 /\
+   aligner_align_g (slice_gen false) P 3 reference frag peaks2 false = Ok segs2 /\
    let w2 := row_create segs2 (mid query) (mid reference) (mlen query) (mlen reference) false in
    row_pairs (rsegs w1) <> [] /\ row_pairs (rsegs w2) <> [] /\ check_overlap w1 w2 1000000 = true /\
-   join_rows w1 w2 = Err /\ results_resolve [w1; w2] 1000000 = Err).
-Proof. exact f8_join_refuted. Qed.
-(* PARTIAL for the repaired trimming loop: the join does not raise when both parts have a pair and the FIRST segment of each part is
-   empty or has an aligned pair (missing: that Aligner.align never returns a row whose first segment is non-empty without pair) *)
-Theorem C07_join_total_repaired_partial a b : row_pairs (rsegs a) <> [] -> row_pairs (rsegs b) <> [] ->
-  (forall s, seg0 a = Ok s -> seg_defined s) -> (forall s, seg0 b = Ok s -> seg_defined s) ->
-  exists r, join_rows_g slice_fix a b = Ok r.
-Proof. exact (join_rows_g_total slice_fix a b slice_fix_total). Qed.
-(* on the witness of C07_join_refuted the repaired join returns the row (1,1) (2,3) (3,4) *)
-Example C07_join_repaired_on_witness :
-  option_map site_pairs_of (match join_rows_g slice_fix f8_row1 f8_row2 with Ok w => Some w | Err => None end) = Some [(1, 1); (2, 3); (3, 4)].
-Proof. exact f8_repaired. Qed.
+   join_rows_g (slice_gen false) w1 w2 = Err /\ results_resolve_gen false false [w1; w2] 1000000 = Err).
+Proof. exact f8_join_refuted_before. Qed.
+Example C07_join_raises_on_F8_witness_before_F8 :
+  aligner_align_g (slice_gen false) f8_P 1 f8_ref f8_qry [110; 120] false = Ok f8_segs1 /\ map kinds f8_segs1 = [[0; 1; 2]; [0]] /\
+  unaligned_fragments f8_row1 (mpositions f8_qry) = Ok [f8_qry] /\
+  aligner_align_g (slice_gen false) f8_P 3 f8_ref f8_qry [70] false = Ok f8_segs2 /\ map kinds f8_segs2 = [[0; 0]] /\
+  check_overlap f8_row1 f8_row2 1000000 = true /\
+  join_rows_g (slice_gen false) f8_row1 f8_row2 = Err /\
+  results_resolve_gen false false [f8_row1; f8_row2] 1000000 = Err /\ results_resolve_gen false true [f8_row1; f8_row2] 1000000 = Err.
+Proof. exact f8_witness_before. Qed.
+(* the current model on the same witness: the same passes return the same segments, the join returns the row (1,1) (2,3) (3,4) — a valid
+   matching of the 3 reference and 4 query labels —, and AlignmentResults.resolve reports it in place of its two parts *)
+Theorem C07_join_ok_on_F8_witness :
+  aligner_align f8_P 1 f8_ref f8_qry [110; 120] false = Ok f8_segs1 /\
+  aligner_align f8_P 3 f8_ref f8_qry [70] false = Ok f8_segs2 /\
+  exists j, join_rows f8_row1 f8_row2 = Ok j /\ site_pairs_of j = [(1, 1); (2, 3); (3, 4)] /\
+    results_resolve [f8_row1; f8_row2] 1000000 = Ok ([j], []).
+Proof. exact f8_witness_now. Qed.
+Example C07_joined_row_valid_on_F8_witness :
+  option_map (fun j => valid_rowb 3 1 4 false (site_pairs_of j)) (match join_rows f8_row1 f8_row2 with Ok j => Some j | Err => None end) = Some true.
+Proof. vm_compute. reflexivity. Qed.
 
-(* "does not raise" is not yet "can be read back": the join of two rows whose FIRST segments were emptied by conflict resolution is a
-   row without any aligned pair (reference labels at 0, 6, 14 bp, query labels at 0, 2, 9 bp, peaks 0 and 6, then -2 and -1) ... *)
-Theorem C07_pairless_join_refuted :
-  aligner_align f9_P 1 f9_ref f9_qry [0; 60] false = Ok f9_segs1 /\ map seg_empty f9_segs1 = [true; false] /\
+(* REGRESSION (F9).  "does not raise" is not yet "can be read back": the join of two rows whose FIRST segments were emptied by conflict
+   resolution is a row without any aligned pair (reference labels at 0, 6, 14 bp, query labels at 0, 2, 9 bp, peaks 0 and 6, then -2
+   and -1); before repair F9 (with or without repair F8) AlignmentResults.resolve reported it in place of its two parts ... *)
+Theorem C07_pairless_join_before_F9 :
+  aligner_align_g (slice_gen false) f9_P 1 f9_ref f9_qry [0; 60] false = Ok f9_segs1 /\ map seg_empty f9_segs1 = [true; false] /\
   site_pairs_of f9_row1 = [(2, 1); (3, 3)] /\
   unaligned_fragments f9_row1 (mpositions f9_qry) = Ok [f9_qry] /\
-  aligner_align f9_P 3 f9_ref f9_qry [-20; -10] false = Ok f9_segs2 /\ map seg_empty f9_segs2 = [true; false] /\
+  aligner_align_g (slice_gen false) f9_P 3 f9_ref f9_qry [-20; -10] false = Ok f9_segs2 /\ map seg_empty f9_segs2 = [true; false] /\
   site_pairs_of f9_row2 = [(1, 2); (2, 3)] /\
-  exists j, results_resolve [f9_row1; f9_row2] 1000000 = Ok ([j], []) /\ site_pairs_of j = [] /\ conf j = 0.
-Proof. exact f9_witness. Qed.
+  exists j, results_resolve_gen false false [f9_row1; f9_row2] 1000000 = Ok ([j], []) /\
+            results_resolve_gen true false [f9_row1; f9_row2] 1000000 = Ok ([j], []) /\ site_pairs_of j = [] /\ conf j = 0.
+Proof. exact f9_witness_before. Qed.
+(* ... the current model on the same witness: same passes, same rows, the guard holds and the join of the two first segments is still
+   a row without any pair, but AlignmentResults.resolve no longer reports it: both parts stay un-joined.  In general every joined row
+   AlignmentResults.resolve reports has a pair: C08_join_guard, C08_partition (conjunct joined_ok j = true). *)
+Theorem C07_pairless_join_not_reported_on_F9_witness :
+  aligner_align f9_P 1 f9_ref f9_qry [0; 60] false = Ok f9_segs1 /\
+  aligner_align f9_P 3 f9_ref f9_qry [-20; -10] false = Ok f9_segs2 /\
+  check_overlap f9_row1 f9_row2 1000000 = true /\
+  (exists j, join_rows f9_row1 f9_row2 = Ok j /\ site_pairs_of j = [] /\ joined_ok j = false) /\
+  results_resolve [f9_row1; f9_row2] 1000000 = Ok ([], [f9_row1; f9_row2]).
+Proof. exact f9_witness_now. Qed.
 
 (* ================================================================== 5. HitEnum ==================================================== *)
 (* cigarString of a valid matching (C01: strictly ascending reference labels, strictly monotone query labels) never raises *)
@@ -174,7 +222,8 @@ Theorem C07_reader_total refs qrys rows : Forall (row_ok refs qrys) rows ->
 Proof. exact (reader_total refs qrys rows). Qed.
 Example C07_zero_records refs qrys : xmap_read_lines (xmap_write_lines []) refs qrys = XOk [].
 Proof. reflexivity. Qed.
-(* ... and the row of C07_pairless_join_refuted (no pair, empty HitEnum) is outside row_ok: its record cannot be read back (TypeError) *)
+(* ... and the row of C07_pairless_join_before_F9 (no pair, empty HitEnum), which is no longer written, is outside row_ok: its record
+   could not be read back (TypeError) *)
 Definition f9_record : xrow :=
   {| x_qid := 7; x_rid := 1; x_qstart := 0; x_qend := 0; x_rstart := 0; x_rend := 0; x_rev := false; x_conf := 0; x_runs := [];
      x_qlen := 440; x_rlen := 150; x_rest := false; x_pairs := [] |}.
@@ -199,18 +248,25 @@ Proof. split; [|split]; [repeat (apply SSorted_cons || apply SSorted_nil || appl
 Print Assumptions C07_factory_segments_have_pairs.
 Print Assumptions C07_segment_accessors_total.
 Print Assumptions C07_chain_total.
-Print Assumptions C07_slice_raises_iff.
-Print Assumptions C07_resolve_pair_raises_only_in_slice.
+Print Assumptions C07_slice_total.
+Print Assumptions C07_slice_gen_is_model.
+Print Assumptions C07_slice_raises_iff_before_F8.
+Print Assumptions C07_slice_repaired.
+Print Assumptions C07_resolve_pair_total_defined.
+Print Assumptions C07_resolve_pair_raises_only_in_slice_before_F8.
 Print Assumptions C07_resolve_pair_total.
 Print Assumptions C07_first_resolution_total.
-Print Assumptions C07_aligner_total_partial.
-Print Assumptions C07_aligner_total_repaired.
+Print Assumptions C07_aligner_total.
 Print Assumptions C07_generic_is_model.
 Print Assumptions C07_repair_conservative.
-Print Assumptions C07_slice_repaired.
+Print Assumptions C07_aligner_raises_only_in_loop_before_F8.
 Print Assumptions C07_fragments_total.
-Print Assumptions C07_join_refuted.
-Print Assumptions C07_join_total_repaired_partial.
-Print Assumptions C07_pairless_join_refuted.
+Print Assumptions C07_join_total_partial.
+Print Assumptions C07_generic_join_is_model.
+Print Assumptions C07_generic_resolve_is_model.
+Print Assumptions C07_join_refuted_before_F8.
+Print Assumptions C07_join_ok_on_F8_witness.
+Print Assumptions C07_pairless_join_before_F9.
+Print Assumptions C07_pairless_join_not_reported_on_F9_witness.
 Print Assumptions C07_cigar_total.
 Print Assumptions C07_reader_total.
